@@ -79,16 +79,53 @@ example : tN.wf = true ∧
 
 /-! ### 2. filtering changes nothing except dropping members / int rewriting -/
 
-/-- Whenever filtering does not fail fatally, the result is the input up to
-dropped (and reordered) object members and integral floats rewritten as
-`int64` literals (`Drops`).  (A fatal result may contain `null` for a missing
-declared member, hence the hypothesis.) -/
-theorem filter_only_drops (t : Ty) (v : J) (h : (filter t v).2 ≠ .fatal) :
+/-- UPPER BOUND only (audit C17-M1): whenever filtering does not fail fatally, every member of the
+result stems from a member of the input with that key, up to integral floats rewritten as `int64`
+literals (`Drops` is type-agnostic: it does not say which members are kept – emptying every object
+would satisfy it).  The exact statement is `filter_exactly_drops` below.
+`_partial` (audit C17-M2): for fatal results the statement is false – a missing declared member is
+written as `null` (`filter_fatal_adds_null`). -/
+theorem filter_only_drops_partial (t : Ty) (v : J) (h : (filter t v).2 ≠ .fatal) :
     Drops (filter t v).1 v :=
   Martian.Types.filter_drops t v h
 
 /-- non-vacuity: a soft (non-fatal) filtering that drops a member and rewrites `1.0` -/
 example : (filter tA (.obj [(kx, .null), (ka, .num (.flt 10 (-1)))])).2 = .soft := by decide
+
+/-- EXACTLY WHAT IS DROPPED (audit C17-M1): a non-fatal result of filtering `v` to `t` is `v` with
+nothing changed where the type cannot filter; at `int` an `int64` literal kept and any other numeral
+rewritten only to the integer its value is (within `int64`); arrays of the same length and typed
+maps with the same keys in the same order, members filtered pointwise at the element type; and a
+struct turned into EXACTLY its declared members in declaration order, each taken from the input (last
+wins) and filtered at the member's type (copied where that type cannot filter).  So the only thing
+ever removed is an undeclared struct member (`DropsT`, Martian/Types.lean: a typed relation; a filter
+that empties objects, duplicates members, keeps a shadowed duplicate or rewrites a float-typed number
+does NOT satisfy it). -/
+theorem filter_exactly_drops (t : Ty) (v : J) (h : (filter t v).2 ≠ .fatal) :
+    DropsT exactRewrite t (filter t v).1 v :=
+  Martian.Types.filter_dropsT t v h
+
+/-- the typed relation really is tight: emptying a typed map, or rewriting a number at `float`, is
+not allowed -/
+example : ¬ DropsT exactRewrite (.tmap (.base .int)) (.obj []) (.obj [(ka, .num (.int 1))]) := by
+  intro h
+  cases h with
+  | tmap _ _ _ _ hm => cases hm
+example : ¬ DropsT exactRewrite (.base .float) (.num (.int 1)) (.num (.flt 10 (-1))) := by
+  intro h; cases h
+
+/-- negative witness for the `≠ fatal` hypothesis (audit C17-M2): filtering `{}` to `struct A(int a)`
+is fatal and ADDS a member `"a": null`, which is no `Drops` of the input -/
+theorem filter_fatal_adds_null :
+    (filter tA (.obj [])).2 = .fatal ∧ ¬ Drops (filter tA (.obj [])).1 (.obj []) := by
+  refine ⟨by decide, ?_⟩
+  have : (filter tA (.obj [])).1 = .obj [(ka, .null)] := by rfl
+  rw [this]
+  intro h
+  cases h with
+  | obj ho =>
+    cases ho with
+    | cons hm _ _ => cases hm
 
 /-- A type that cannot filter (`CanFilter() == false`) returns its input unchanged. -/
 theorem filter_unchanged_of_not_canFilter (t : Ty) (v : J) (h : canFilter t = false) :
@@ -110,7 +147,7 @@ theorem valid_null (t : Ty) : valid t .null = true :=
   Martian.Types.valid_null t
 
 /-- Clean validation accepts exactly the values of the declared shape
-(`Shape` is the independent declarative description in Martian/Types.lean). -/
+(`Shape` is the separately written declarative description (it shares the helper functions `isDirMap`, `legalName`, `getKey`, `Num.inInt64` with `check`: independence is of the recursion, not of those helpers) in Martian/Types.lean). -/
 theorem valid_iff_shape (t : Ty) (v : J) : valid t v = true ↔ Shape t v :=
   ⟨shape_of_valid t v, valid_of_shape t v⟩
 
@@ -130,11 +167,6 @@ example :
 theorem assignable_refl (t : Ty) (hwf : t.wf = true) : assignable t t = true :=
   Martian.Types.assignable_refl t hwf
 
-/-- arrays: exactly when it holds for the elements (one dimension) -/
-theorem assignable_array_iff (a b : Ty) :
-    assignable (.arr a) (.arr b) = assignable a b := by
-  simp [assignable]
-
 /-- arrays in Go's `ArrayType{Elem, Dim}` form: equal dimension and assignable elements -/
 theorem assignable_array_dim_iff (a b : Ty) (ha : notArr a = true) (hb : notArr b = true)
     (n m : Nat) :
@@ -142,11 +174,6 @@ theorem assignable_array_dim_iff (a b : Ty) (ha : notArr a = true) (hb : notArr 
   assignable_arrN a b ha hb n m
 
 example : notArr (.tmap (.arr (.base .int))) = true ∧ notArr tA = true := by decide
-
-/-- typed maps: exactly when it holds for the element types -/
-theorem assignable_map_iff (a b : Ty) :
-    assignable (.tmap a) (.tmap b) = assignable a b := by
-  simp [assignable]
 
 /-- structs, direction "only if": every member of the destination exists in
 the source with an assignable type. -/
@@ -177,6 +204,20 @@ theorem assignable_struct_components_not_sufficient :
     assignable (.base .map) (.tmap (.base .int)) = true ∧
     assignable (.struct [0x42] (.cons km (.base .map) .nil))
                (.struct [0x43] (.cons km (.tmap (.base .int)) .nil)) = false := by decide
+
+/-! ### definitional unfoldings (documentation of the model, not guarantees) -/
+
+/-- arrays (one dimension): by definition of the model; the rule itself is tied to
+`ArrayType.IsAssignableFrom` by the differential harness, the substantive statement is
+`assignable_array_dim_iff` -/
+theorem assignable_array_iff (a b : Ty) :
+    assignable (.arr a) (.arr b) = assignable a b := by
+  simp [assignable]
+
+/-- typed maps: by definition of the model (tied to `TypedMapType.IsAssignableFrom` by correspondence) -/
+theorem assignable_map_iff (a b : Ty) :
+    assignable (.tmap a) (.tmap b) = assignable a b := by
+  simp [assignable]
 
 /-! ### 5. the central statement -/
 
@@ -423,9 +464,41 @@ theorem filter_idem_round (t : Ty) (hwf : t.wf = true) (v : J) :
 /-- filtering changes nothing except dropping undeclared members and rewriting
 a numeral that is no `int64` literal as the integer its float64 rounding is
 (`Drops.int n i : n.goInt? = some i`) -/
-theorem filter_only_drops_round (t : Ty) (v : J) (h : (Martian.TypesR.filter t v).2 ≠ .fatal) :
+theorem filter_only_drops_round_partial (t : Ty) (v : J) (h : (Martian.TypesR.filter t v).2 ≠ .fatal) :
     Martian.TypesR.Drops (Martian.TypesR.filter t v).1 v :=
   Martian.TypesR.filter_drops t v h
+
+/-- EXACTLY what is dropped, rounded numerals: as `filter_exactly_drops`, the `int` rewrite being the
+code's (`n.goInt? = some i`: the ROUNDED value) -/
+theorem filter_exactly_drops_round (t : Ty) (v : J) (h : (Martian.TypesR.filter t v).2 ≠ .fatal) :
+    DropsT (fun n i => n.goInt? = some i) t (Martian.TypesR.filter t v).1 v :=
+  Martian.TypesR.filter_dropsT t v h
+
+/-- struct positions: exactly the declared members in declaration order (rounded model) -/
+theorem filter_struct_members_round (n : Bytes) (fs : Fields) (kvs : List (Bytes × J)) :
+    ∃ out, (Martian.TypesR.filter (.struct n fs) (.obj kvs)).1 = .obj out ∧
+      out.map Prod.fst = fs.toList.map Prod.fst :=
+  ⟨_, Martian.TypesR.filter_struct_fst n fs kvs, by simp [List.map_map, Function.comp_def]⟩
+
+/-- same type: a clean value stays clean after filtering (rounded model) -/
+theorem filter_valid_self_round (t : Ty) (hwf : t.wf = true) (v : J) (h : Martian.TypesR.valid t v = true) :
+    Martian.TypesR.valid t (Martian.TypesR.filter t v).1 = true :=
+  Martian.TypesR.valid_of_shape _ _ (Martian.TypesR.shape_filter_of_assignable t hwf t v
+    (Martian.TypesR.shape_of_valid t v h) (Martian.Types.assignable_refl t hwf) (Martian.Types.noHole_refl t hwf))
+
+/-- narrowing chain (rounded model) -/
+theorem filter_narrow_chain_round (d s : Ty) (v : J) (hd : d.wf = true) (hs : s.wf = true)
+    (hv : Martian.TypesR.valid s v = true) (ha : assignable d s = true) (hp : pureNarrow d s = true) :
+    (Martian.TypesR.filter d (Martian.TypesR.filter s v).1).1 = (Martian.TypesR.filter d v).1 :=
+  Martian.TypesR.filter_chain d hd s v hs hv ha hp
+
+/-- struct positions are last-wins (rounded model) -/
+theorem struct_last_wins_round (n : Bytes) (fs : Fields) (kvs : List (Bytes × J)) :
+    Martian.TypesR.valid (.struct n fs) (.obj kvs) = Martian.TypesR.valid (.struct n fs) (.obj (dedupLast kvs))
+    ∧ Martian.TypesR.filter (.struct n fs) (.obj kvs) = Martian.TypesR.filter (.struct n fs) (.obj (dedupLast kvs)) := by
+  constructor
+  · simp [Martian.TypesR.valid, Martian.TypesR.check, Martian.TypesR.checkFields_dedupLast]
+  · simp [Martian.TypesR.filter, Martian.TypesR.filterFields_dedupLast]
 
 /-- clean validation accepts exactly the declared shape, floats being finite in binary64 -/
 theorem valid_iff_shape_round (t : Ty) (v : J) : Martian.TypesR.valid t v = true ↔ Martian.TypesR.Shape t v :=
